@@ -12,7 +12,12 @@ mod verif_kani {
         }
         sz
     }
-    fn stub_to_tagged_vec(s: CoseSign1) -> coset::Result<Vec<u8>> { Ok(vec![0u8; model_size(&s)]) }
+    // generic because the stubbed item is a provided trait method; the only instantiation in this harness is CoseSign1
+    fn stub_to_tagged_vec<T: coset::TaggedCborSerializable>(s: T) -> coset::Result<Vec<u8>> {
+        let r: &CoseSign1 = unsafe { &*(&s as *const T as *const CoseSign1) };
+        let n = model_size(r);
+        Ok(vec![0u8; n])
+    }
 
     #[kani::proof]
     #[kani::stub(coset::TaggedCborSerializable::to_tagged_vec, stub_to_tagged_vec)]
